@@ -447,3 +447,11 @@ func init() {
 	gBackendUse.m = map[string]int{}
 }
 var gDumped int64
+
+// dumpqMinMs is the minimum duration of a query dumped under SYMGO_DUMPQ (SYMGO_DUMPQ_MS, default 15).
+func dumpqMinMs() int {
+	if v, err := strconv.Atoi(os.Getenv("SYMGO_DUMPQ_MS")); err == nil {
+		return v
+	}
+	return 15
+}
